@@ -244,10 +244,8 @@ func checkC19(c *Ctx, r *Report) {
 			idRets = append(idRets, ret)
 		}
 		r1.guard(pid, "return a peer ID", idRets, "ran", edgeBool(isLoadOfField(srvT+".ran"), true), nil)
-		okState := edgeCmp(func(b *ssa.BinOp) bool {
-			k, ok := constInt(b.Y)
-			return ok && b.Op == token.EQL && (k == stVerifyChallenge || k == stVerifyBearer) && isLoadOfField(srvT+".state")(strip2(b.X))
-		}, true)
+		isSrvState := func(v ssa.Value) bool { return isLoadOfField(srvT + ".state")(strip2(v)) }
+		okState := anyEdge(edgeIntBound(isSrvState, stVerifyChallenge, stVerifyChallenge, false), edgeIntBound(isSrvState, stVerifyBearer, stVerifyBearer, false))
 		r1.guard(pid, "return a peer ID", idRets, "state in {VerifyChallenge, VerifyBearer}", okState, nil)
 		for _, ret := range idRets {
 			r1.Check(isLoadOfField(opT+".PeerID")(strip2(ret.(*ssa.Return).Results[0])), "(*"+srvT+").PeerID: returns opaque.PeerID", instrPos(ret), 1, "", "", "")
@@ -359,6 +357,7 @@ func checkC19(c *Ctx, r *Report) {
 
 	// ---- R4 ---------------------------------------------------------------
 	r4 := r.Rule("C19-R4", "E1/E3", 6, "client: the states in which PeerID() answers are entered only past verifySig==nil (or from a state already in the set); serverPeerID derives from the key verifySig uses")
+	isCliState := func(v ssa.Value) bool { return isLoadOfField(cliT + ".state")(strip2(v)) }
 	stDone := constIntObj(c, hsP, "peerIDAuthClientStateDone")
 	stWait := constIntObj(c, hsP, "peerIDAuthClientStateWaitingForBearer")
 	cvsK := "(*" + cliT + ").verifySig"
@@ -375,10 +374,7 @@ func checkC19(c *Ctx, r *Report) {
 			}
 			n++
 			w1, n1 := (&Cut{Fn: cr, Target: isInstr(st), EdgeCut: edgeNil(isCallResult(0, cvsK), true)}).Run(c)
-			w2, n2 := (&Cut{Fn: cr, Target: isInstr(st), EdgeCut: edgeCmp(func(b *ssa.BinOp) bool {
-				k, ok := constInt(b.Y)
-				return ok && b.Op == token.EQL && (k == stDone || k == stWait) && isLoadOfField(cliT+".state")(strip2(b.X))
-			}, true)}).Run(c)
+			w2, n2 := (&Cut{Fn: cr, Target: isInstr(st), EdgeCut: anyEdge(edgeIntBound(isCliState, stDone, stDone, false), edgeIntBound(isCliState, stWait, stWait, false))}).Run(c)
 			r4.Check(w1 == "" || w2 == "", "client Run: state = authenticated only past verifySig==nil or from an authenticated state", instrPos(st), n1+n2, "",
 				"the client can reach a state in which it reports the server's peer ID without having verified the server's signature", w1)
 		}
@@ -414,10 +410,7 @@ func checkC19(c *Ctx, r *Report) {
 			}
 			idRets = append(idRets, ret)
 		}
-		r4.guard(pid, "return a peer ID", idRets, "state in {Done, WaitingForBearer}", edgeCmp(func(b *ssa.BinOp) bool {
-			k, ok := constInt(b.Y)
-			return ok && b.Op == token.EQL && (k == stDone || k == stWait) && isLoadOfField(cliT+".state")(strip2(b.X))
-		}, true), nil)
+		r4.guard(pid, "return a peer ID", idRets, "state in {Done, WaitingForBearer}", anyEdge(edgeIntBound(isCliState, stDone, stDone, false), edgeIntBound(isCliState, stWait, stWait, false)), nil)
 	}
 
 	// ---- R5 ---------------------------------------------------------------
